@@ -256,6 +256,40 @@ def task_concrete():
             bad = "%s: %s" % (type(e).__name__, str(e)[:100])
         out.append(ob("%s:mixed-number-classes[%s]" % (fn3, label), fn3, FAILED if bad else PROVED, "B", "concrete", 0.0,
                       bad or "the joined curve equals each operand on its interval", dict(kind="c07.concrete", which="classes:" + label, p=2) if bad else None))
+    # (4) operands of DIFFERENT kinds: a polynomial curve joined with a rational one (either side), two rational curves with unrelated weights, equal and different
+    #     degrees: (A | B) is A on A's interval and B on B's, exactly; the junction is continuous (B starts at A's end point) and, as the property says, nothing else is asked
+    fn4 = "curves.BaseCurve.__or__"
+    WS = {2: [F(1), F(3), F(1, 2)], 1: [F(2), F(1, 3)], 3: [F(1), F(2, 3), F(5), F(1, 4)]}
+    for pa, pb in ((2, 2), (1, 2), (2, 1), (3, 2)):
+        PA = [F((-1) ** i * (2 * i + 1), 3) for i in range(pa + 1)]
+        for label, wa, wb, jump in [(l_, a_, b_, j_) for j_ in (True, False) for l_, a_, b_ in (("pol|rat", None, WS[pb]), ("rat|pol", WS[pa], None), ("rat|rat", WS[pa], list(reversed(WS[pb]))))]:
+            # jump: B starts away from A's end point, so no copy of the junction knot is removable and the rational removal path (known finding D9) has nothing to
+            # accept; continuous: one copy is removable, the cleaning of the junction goes through that path and the obligation is tagged `rational` for the D9 predicate
+            PB = [PA[-1] + (F(7, 3) if jump else 0)] + [F(i * i - 3, 2) for i in range(1, pb + 1)]
+            bad = None
+            try:
+                A = curves.Curve([F(0)] * (pa + 1) + [F(2)] * (pa + 1), list(PA), None if wa is None else list(wa))
+                B = curves.Curve([F(2)] * (pb + 1) + [F(5)] * (pb + 1), list(PB), None if wb is None else list(wb))
+                ea = {u: A(u) for u in (F(0), F(1, 2), F(7, 4), F(2))}
+                eb = {u: B(u) for u in (F(2), F(9, 4), F(3), F(9, 2), F(5))}
+                R = A | B
+                if tuple(R.knotvector.limits) != (F(0), F(5)) or not consistent(R):
+                    bad = "the joined curve lives on %s with %d control points for npts = %d" % (tuple(map(str, R.knotvector.limits)), len(R.ctrlpoints), R.npts)
+                for src, tab in ((A, ea), (B, eb)):
+                    for u, exp in tab.items():
+                        if bad or (u == 2 and src is A):
+                            continue
+                        got = R(u)
+                        if got != exp or src(u) != exp:
+                            bad = "(A|B)(%s) = %s, the %s operand gives %s (operand afterwards: %s)" % (u, got, "left" if src is A else "right", exp, src(u))
+            except Exception as e:
+                bad = "%s: %s" % (type(e).__name__, str(e)[:100])
+            tag = "%s,pa=%d,pb=%d,%s" % (label, pa, pb, "jump" if jump else "continuous")
+            o_ = ob("%s:mixed-kinds[%s]" % (fn4, tag), fn4, FAILED if bad else PROVED, "B", "concrete", 0.0,
+                    bad or "the joined curve equals each operand on its interval, exactly; the operands are not modified", dict(kind="c07.concrete", which="kinds:" + tag, p=pa) if bad else None)
+            if not jump:
+                o_.setdefault("tags", {})["rational"] = True
+            out.append(o_)
     return out + [{"_stats": dict(cases=len(out))}]
 
 
@@ -269,7 +303,7 @@ def tasks(tier, seed):
 def replay(o):
     if (o.get("witness") or {}).get("kind") == "c07.concrete":
         w = o["witness"]
-        tag = "[p=%d]" % w["p"] if w["which"] == "kept" else ("mixed-number-classes[%s]" % w["which"][8:] if w["which"].startswith("classes:") else "after-in-place-%s" % w["which"])
+        tag = "[p=%d]" % w["p"] if w["which"] == "kept" else "mixed-kinds[%s]" % w["which"][6:] if w["which"].startswith("kinds:") else ("mixed-number-classes[%s]" % w["which"][8:] if w["which"].startswith("classes:") else "after-in-place-%s" % w["which"])
         r = [x for x in task_concrete() if "id" in x and x["id"].endswith(tag)][0]
         return r["status"] == "failed", "knots away from the junction kept / pieces of the current knot vector", r["detail"]
     w = o["witness"]
